@@ -1,4 +1,5 @@
 import Proofs.SizeApp
+import Proofs.BQTime
 /-
   C05 — Codec laws: reported size, appended bytes, framing and consumed length
   all agree.  Property theorems only; helper lemmas live in Proofs/SizeApp.lean.
@@ -211,5 +212,38 @@ builder never produces) would size every element like the zero value. -/
 example : (Ty.fslice (.uint 64)).size (.slice [.uint 300]) [] = 1
     ∧ ((Ty.fslice (.uint 64)).app (.slice [.uint 300]) []).length = 2 := by
   simp [Ty.size, Ty.app, Ty.zero, frame, frameSize, sizeVarUint, appendVarUint]
+
+/-! ### the BigQuery timestamp codec (`BQTimestampCodec`, an exported codec outside `Ty`) -/
+
+/-- law 1: reported size = bytes appended, with and without a tag. -/
+theorem bq_size_eq_append (sec nsec : Int) (tag : Bytes) :
+    BQTime.size sec nsec tag = (BQTime.app sec nsec tag).length := BQTime.size_eq_append sec nsec tag
+
+/-- law 2 (a varint codec): tagged = tag ++ untagged. -/
+theorem bq_frame (sec nsec : Int) (tag : Bytes) :
+    BQTime.app sec nsec tag = tag ++ BQTime.app sec nsec [] := BQTime.app_tag sec nsec tag
+
+/-- law 3 with the value: reading the body back, whatever follows it, consumes
+exactly its length and yields the time truncated to whole microseconds (the
+codec's resolution), for every time whose microsecond count fits int64. -/
+theorem bq_read_exact (sec nsec : Int) (rest : Bytes) (hn : 0 ≤ nsec ∧ nsec < 1000000000)
+    (hr : intRange 64 (sec * 1000000 + nsec / 1000)) :
+    BQTime.read (BQTime.app sec nsec [] ++ rest)
+      = .ok ((sec, nsec / 1000 * 1000), (BQTime.app sec nsec []).length) :=
+  BQTime.read_app sec nsec rest hn hr
+
+/-- the decoder never panics or hangs (C04 for this codec). -/
+theorem bq_read_total (data : Bytes) :
+    BQTime.read data = .err ∨ ∃ t n, BQTime.read data = .ok (t, n) := BQTime.read_total data
+
+-- non-vacuity: 2023-11-14T22:13:20.123456789Z meets the hypotheses; it reads back
+-- at microsecond resolution whatever follows it; so does a time before 1970
+example : BQTime.read (BQTime.app 1700000000 123456789 [] ++ [7])
+    = .ok ((1700000000, 123456000), (BQTime.app 1700000000 123456789 []).length) :=
+  bq_read_exact 1700000000 123456789 [7] (by omega) (by unfold intRange; omega)
+example : BQTime.read (BQTime.app (-1) 999999000 [])
+    = .ok ((-1, 999999000), (BQTime.app (-1) 999999000 []).length) := by
+  have h := bq_read_exact (-1) 999999000 [] (by omega) (by unfold intRange; omega)
+  simpa using h
 
 end C05
